@@ -1,6 +1,7 @@
 package main
 
 import (
+	"sync/atomic"
 	"fmt"
 	"go/constant"
 	"go/types"
@@ -27,6 +28,13 @@ type Agg struct {
 type Ptr struct {
 	Cell *Cell
 	Path []PathElem
+}
+
+// PtrSet is a pointer whose target depends on the path taken (a merge of different pointers at a
+// join): a read is the ite of the reads, a write updates every alternative conditionally.
+type PtrSet struct {
+	Conds []T
+	Ptrs  []Ptr
 }
 
 type PathElem struct {
@@ -204,6 +212,8 @@ func (e *Env) get(name string) (Val, bool) {
 	}
 	return nil, false
 }
+
+var qctr int64
 
 type evalErr string
 
@@ -386,9 +396,17 @@ func (ev *Evaluator) Eval(e Expr, env *Env) Val {
 			}
 			return Leaf{T: mkNeg(t)}
 		case "*":
-			p, ok := ev.Eval(x.X, env).(Ptr)
+			pv := ev.Eval(x.X, env)
+			if ps, isSet := pv.(PtrSet); isSet {
+				res := ev.deref(ps.Ptrs[len(ps.Ptrs)-1], env.inOld)
+				for k := len(ps.Ptrs) - 2; k >= 0; k-- {
+					res = ev.iteVal(ps.Conds[k], ev.deref(ps.Ptrs[k], env.inOld), res)
+				}
+				return res
+			}
+			p, ok := pv.(Ptr)
 			if !ok {
-				ev.fail("deref of non-pointer")
+				ev.fail("deref of non-pointer (%T)", pv)
 			}
 			return ev.deref(p, env.inOld)
 		}
@@ -531,7 +549,21 @@ func (ev *Evaluator) Eval(e Expr, env *Env) Val {
 		lo := ev.specOf(ev.Eval(x.Lo, env))
 		hi := ev.specOf(ev.Eval(x.Hi, env))
 		if lo.C == nil || hi.C == nil {
-			ev.fail("quantifier bounds must be constant")
+			// symbolic range: a genuine SMT quantifier. No auxiliary constants may be introduced inside the
+			// binder (they would capture the bound variable), so definitions are switched off for the body.
+			if x.Sum || ev.th.Mode() != "int" {
+				ev.fail("sum / bv-mode quantifier bounds must be constant")
+			}
+			kv := T{S: fmt.Sprintf("q!%s!%d", x.Var, atomic.AddInt64(&qctr, 1)), Sort: sortInt}
+			saveVC := ev.vc
+			ev.vc = nil
+			body := ev.boolOf(ev.Eval(x.Body, env.bind(x.Var, Leaf{T: kv})))
+			ev.vc = saveVC
+			rng := fmt.Sprintf("(and (<= %s %s) (<= %s %s))", lo.S, kv.S, kv.S, hi.S)
+			if x.Forall {
+				return Leaf{T: T{S: fmt.Sprintf("(forall ((%s Int)) (=> %s %s))", kv.S, rng, body.S), Sort: sortBool}}
+			}
+			return Leaf{T: T{S: fmt.Sprintf("(exists ((%s Int)) (and %s %s))", kv.S, rng, body.S), Sort: sortBool}}
 		}
 		if x.Sum {
 			acc := ev.th.SpecLit(big.NewInt(0))
@@ -708,6 +740,28 @@ func (ev *Evaluator) call(x *ECall, env *Env) Val {
 			return Leaf{T: o.Tag}
 		}
 		ev.fail("tag of untagged value")
+	case "ratnum", "ratden":
+		// numerator / denominator of the *big.Rat a pointer refers to (math/big model)
+		pv := ev.Eval(x.Args[0], env)
+		var dv Val
+		if ps, isSet := pv.(PtrSet); isSet {
+			dv = ev.deref(ps.Ptrs[len(ps.Ptrs)-1], env.inOld)
+			for k := len(ps.Ptrs) - 2; k >= 0; k-- {
+				dv = ev.iteVal(ps.Conds[k], ev.deref(ps.Ptrs[k], env.inOld), dv)
+			}
+		} else if p, ok := pv.(Ptr); ok {
+			dv = ev.deref(p, env.inOld)
+		} else {
+			ev.fail("%s: expected a *big.Rat", x.Fn)
+		}
+		ag, ok := dv.(Agg)
+		if !ok || len(ag.Elems) != 2 {
+			ev.fail("%s: not a modelled *big.Rat", x.Fn)
+		}
+		if x.Fn == "ratnum" {
+			return ag.Elems[0]
+		}
+		return ag.Elems[1]
 	case "from":
 		// from(s, k): the slice or string s[k:]
 		sl, ok := ev.Eval(x.Args[0], env).(*SliceV)
